@@ -2,7 +2,7 @@ SPECIFICATION Spec
 CONSTANTS
   MaxArr = 3
   MaxTime = 2500
-  EagerKeys = FALSE
+  EagerKeys = TRUE
   SplitByFlush = FALSE
   KeepSubs = FALSE
   FlushVaries = TRUE
